@@ -78,7 +78,7 @@ def start_wall(draw, zone):
     dim = calendar.monthrange(y, m)[1]
     d = draw(st.one_of(st.sampled_from([1, 2, 27, 28, 29, 30, 31]), st.integers(1, 31)))
     d = min(d, dim)
-    tod = draw(st.one_of(st.just(0), st.integers(0, 86400 * US - 1), st.sampled_from([86400 * US - 1, 3600 * US, 2 * 3600 * US + 1800 * US])))
+    tod = draw(st.one_of(st.just(0), S.uni(0, 86400 * US - 1), st.sampled_from([86400 * US - 1, 3600 * US, 2 * 3600 * US + 1800 * US])))
     return T.naive_us(D.datetime(y, m, d)) + tod
 
 
